@@ -1051,6 +1051,14 @@ func genTarget(r *common.Rand, dirPathRel string, names []string) string {
 		}
 	case 11:
 		return wdDir + "/" + dirPathRel + "/" + pickSeg(r) + "/" + ups(1+r.Intn(4)) + pickSeg(r)
+	case 12:
+		if len(names) > 0 {
+			// below an earlier entry (a regular file: ENOTDIR for the parent check)
+			n := strings.TrimPrefix(strings.TrimPrefix(common.Pick(r, names), dirPathRel), "/")
+			if n != "" {
+				return n + "/" + pickSeg(r) + "/" + pickSeg(r)
+			}
+		}
 	}
 	return relName(r, nil)
 }
@@ -1242,7 +1250,7 @@ func genTemplate(r *common.Rand) Case {
 	c := Case{Prep: basePrep(), Preserve: r.Chance(1, 4)}
 	t := common.Pick(r, []string{"t", "a", "k", "t/b"})
 	fin := common.Pick(r, []string{"victim", "a", "x/victim", "k"})
-	switch k := r.Intn(24); k {
+	switch k := r.Intn(26); k {
 	case 0: // raw link target goes through an earlier link and climbs
 		c.Origin = "tpl-raw-target"
 		d := 1 + r.Intn(3)
@@ -1500,6 +1508,31 @@ func genTemplate(r *common.Rand) Case {
 			c.Preserve = r.Bool()
 			c.Pushes = append(c.Pushes, Push{Kind: "U", Title: t, Entries: es})
 		}
+	case 24, 25: // names and link targets whose parents run through a regular file: Lstat answers
+		// ENOTDIR, which resolveRelToBase treats like "does not exist" (C12 fix d74dadf) - the
+		// system call that follows fails (or, for a symbolic link, stores the raw target)
+		c.Origin = "tpl-below-regular-file"
+		f := common.Pick(r, []string{"f", "victim", "a"})
+		sub := common.Pick(r, []string{"x", "x/y", "b/" + fin, "../" + f + "/x"})
+		es := []Entry{{Kind: "r", Name: t + "/" + f, Tag: 1}}
+		switch r.Intn(5) {
+		case 0:
+			es = append(es, Entry{Kind: "s", Name: t + "/l", Target: f + "/" + sub}, Entry{Kind: "r", Name: t + "/l", Tag: 2})
+		case 1:
+			es = append(es, Entry{Kind: "h", Name: t + "/h", Target: t + "/" + f + "/" + sub}, Entry{Kind: "r", Name: t + "/after", Tag: 2})
+		case 2:
+			es = append(es, Entry{Kind: "o", Name: t + "/" + f + "/" + sub}, Entry{Kind: "r", Name: t + "/" + f + "/" + sub, Tag: 2})
+		case 3:
+			es = append(es, Entry{Kind: "s", Name: t + "/l", Target: wdDir + "/" + t + "/" + f + "/" + sub},
+				Entry{Kind: "d", Name: t + "/" + f + "/" + sub})
+		default:
+			es = append(es, Entry{Kind: "s", Name: t + "/" + f + "/" + sub + "/l", Target: "."},
+				Entry{Kind: "h", Name: t + "/" + f + "/" + sub + "/h", Target: t + "/" + f})
+		}
+		c.Pushes = []Push{{Kind: "U", Title: t, Entries: es}}
+		if r.Bool() {
+			c.Pushes = append(c.Pushes, Push{Kind: "B", Title: t + "/" + f + "/" + sub, Tag: 3})
+		}
 	default: // write through a final link created by the store (stays inside when the link is sound)
 		c.Origin = "tpl-final-link"
 		c.Pushes = []Push{
@@ -1681,7 +1714,7 @@ func main() {
 	// coverage floors: a run in which a stream produced nothing must not pass silently
 	for _, k := range []string{"origin=exhaustive-2", "origin=random", "origin=tpl-deep-below-link", "origin=tpl-raw-target",
 		"origin=tpl-prefix-sibling", "origin=tpl-hardlink-nested-dotdot", "origin=tpl-manifest-layers", "origin=tpl-bad-content",
-		"origin=tpl-prepop-hardlink", "origin=tpl-revisit", "wd=missing", "wd=link", "wd=via", "failing-archive", "manifest-cases", "push.B", "push.U", "push.M", "entry.r", "entry.d", "entry.h", "entry.s"} {
+		"origin=tpl-prepop-hardlink", "origin=tpl-revisit", "origin=tpl-below-regular-file", "wd=missing", "wd=link", "wd=via", "failing-archive", "manifest-cases", "push.B", "push.U", "push.M", "entry.r", "entry.d", "entry.h", "entry.s"} {
 		if run.Dist[k] == 0 {
 			fmt.Fprintln(os.Stderr, "C11 harness: coverage floor not met:", k, "= 0")
 			run.Finish()
